@@ -461,6 +461,10 @@ def walks_to_conc_cases(walks, mode_cycle=('rr', 'pipe')):
             if s['c'] == 0:
                 continue
             progs.setdefault(str(s['c']), []).append(s['cmd'])
+        # connection ids stay contiguous (a connection that got no step of this walk has an empty program): the
+        # histories address operations by connection number
+        for c_ in range(1, max([int(k) for k in progs] or [1]) + 1):
+            progs.setdefault(str(c_), [])
         cases.append({'id': n, 'pre': w['pre'], 'progs': progs, 'mode': mode_cycle[n % len(mode_cycle)]})
     return cases
 
